@@ -371,6 +371,9 @@ func retEdges(fn *ssa.Function) []retEdge {
 				}
 			}
 			if !hasPhi || !pure || depth > 6 || len(e.blk.Preds) == 0 {
+				for i, r := range e.Results {
+					e.Results[i] = resolveUnderGuards(r, e.blk)
+				}
 				out = append(out, e)
 				return
 			}
